@@ -196,6 +196,22 @@ pub trait WriteableGraph {
     fn staged_created_nodes_with_labels(&self) -> Vec<(InternalNodeId, Vec<String>)> {
         Vec::new()
     }
+
+    /// Relationships created earlier in the same transaction that touch `node` (they are not
+    /// in the statement's snapshot yet, but DELETE must see them).
+    fn staged_edges_of(&self, _node: InternalNodeId) -> Vec<EdgeKey> {
+        Vec::new()
+    }
+
+    /// True when the same transaction already deleted `node`.
+    fn is_node_deleted_in_txn(&self, _node: InternalNodeId) -> bool {
+        false
+    }
+
+    /// True when the same transaction already deleted `edge`.
+    fn is_edge_deleted_in_txn(&self, _edge: EdgeKey) -> bool {
+        false
+    }
 }
 
 pub use nervusdb_storage::property::PropertyValue;
